@@ -397,6 +397,18 @@ def subfamily_cases():
 def subfamilies(acc: Acc):
     for fam, kind, body, lines, use in subfamily_cases():
         _subst_check("substitution_" + fam, kind, body, lines, use, acc)
+    # actual arguments that spell the name of a formal parameter: all parameters are replaced at once, the text of an
+    # argument is not searched for the other parameters
+    actuals = ["y", "x", "1", "y+x", "x*y", "f(y)"]
+    for body in ("((x)+(y))", "real(y) :: x", "x y x", "y(x)"):
+        for a in actuals:
+            for b in actuals:
+                _subst_check("substitution_argument_names_a_parameter", "function2", body,
+                             [f"#define MAC(x,y) {body}", f"q = MAC({a},{b})"], 1, acc)
+    for body in ("x+y+z", "z(y(x))"):
+        for a, b, c in (("z", "x", "y"), ("y", "z", "x"), ("y", "y", "y"), ("z", "z", "1")):
+            _subst_check("substitution_argument_names_a_parameter", "function3", body,
+                         [f"#define MAC(x,y,z) {body}", f"q = MAC({a},{b},{c})"], 1, acc)
 
 
 # ------------------------------------------------------------------- main
